@@ -697,4 +697,106 @@ theorem rel_dgrade_row {h : Hist} {o : LoadOpts} {m : LMap} (hl : load h o = .ok
 
 example : matchRelative "-2" = some (none, none, -2) ∧ matchRelative "ab12-3" = some (none, some "ab12", -3) := by decide +kernel
 
+
+/-! ### branch-qualified symbolic targets -/
+
+theorem filterAuxM_pure {α} (p : α → Bool) (f : α → Except Err Bool) : ∀ (l acc : List α), (∀ x ∈ l, f x = .ok (p x)) →
+    l.filterAuxM f acc = .ok ((l.filter p).reverse ++ acc)
+  | [], acc, _ => by simp [List.filterAuxM, pure, Except.pure]
+  | a :: r, acc, h => by
+    have ha := h a List.mem_cons_self
+    simp only [List.filterAuxM, bind, Except.bind, ha]
+    rw [filterAuxM_pure p f r _ (fun x hx => h x (List.mem_cons_of_mem _ hx))]
+    cases hp : p a <;> simp [List.filter_cons, hp]
+
+theorem filterM_pure {α} (p : α → Bool) (l : List α) (f : α → Except Err Bool) (h : ∀ x ∈ l, f x = .ok (p x)) :
+    l.filterM f = .ok (l.filter p) := by
+  simp [List.filterM, filterAuxM_pure p f l [] h, bind, Except.bind, pure, Except.pure]
+
+/-- a name without `@` that is a key of the map (a branch label or a full revision id) -/
+def BranchName (m : LMap) (L : String) (br : Id) : Prop :=
+  '@' ∉ L.toList ∧ L ≠ "" ∧ L ≠ "heads" ∧ L ≠ "head" ∧ L ≠ "base" ∧ m.lookup L = some br
+
+theorem resolveShares_name (m : LMap) (n : Nat) (L : String) (br : Id) (hb : BranchName m L br) :
+    resolveShares m (n + 3) L = .ok [br] := by
+  obtain ⟨hat, hne, h1, h2, h3, hlk⟩ := hb
+  unfold resolveShares resolveRevisionNumber
+  simp only [splitFirstAt_noat L hat, bind, Except.bind, pure, Except.pure]
+  simp only [beq_iff_eq, h1, h2, h3, if_false, List.nil_append, List.mapM_cons, List.mapM_nil, bind, Except.bind, pure, Except.pure]
+  unfold revisionForIdent
+  simp [hlk, bind, Except.bind, pure, Except.pure]
+
+theorem filterKeys_name (m : LMap) (n : Nat) (L : String) (br : Id) (hb : BranchName m L br)
+    (l : List Id) (hl : ∀ x ∈ l, x ∈ m.ids) :
+    filterForLineageKeys m (n + 4) l L false = .ok (l.filter (fun t => sharesLineage m t [br] false)) := by
+  unfold filterForLineageKeys
+  simp only [resolveShares_name m n L br hb, bind, Except.bind]
+  apply filterM_pure
+  intro x hx
+  simp [revisionForIdent_id m (n + 2) x (hl x hx), bind, Except.bind, pure, Except.pure]
+
+/-- **`<branch>@head` is the one head of that branch**: for every loaded history and every branch
+name that is a key of the map (a branch label, or a full revision id) for revision `br`:
+`get_revisions("<branch>@head")` answers nothing when no head shares `br`'s `down_revision`
+lineage, and otherwise the single head that does; two such heads are refused (`MultipleHeads`),
+never silently narrowed to one. -/
+theorem branch_head {h : Hist} {o : LoadOpts} {m : LMap} (hl : load h o = .ok m)
+    (hsub : ∀ x ∈ m.heads, x ∈ m.ids) (L : String) (br : Id) (hb : BranchName m L br)
+    (rs : List (Option Id)) (hr : getRevisions m (L ++ "@head") = .ok rs) :
+    (rs = [] ∧ ∀ y ∈ m.heads, sharesLineage m y [br] false = false) ∨
+    ∃ x, rs = [some x] ∧ x ∈ m.heads ∧ sharesLineage m x [br] false = true ∧
+      ∀ y ∈ m.heads, sharesLineage m y [br] false = true → y = x := by
+  have hb' := hb
+  obtain ⟨hat, hne, h1, h2, h3, hlk⟩ := hb
+  have hLe : L.isEmpty = false := by
+    cases hq : L.isEmpty
+    · rfl
+    · exact absurd (String.isEmpty_iff.mp hq) hne
+  unfold getRevisions resolveFuel at hr
+  have hsplit := splitFirstAt_at L "head" hat
+  have hfk := filterKeys_name m 6 L br hb' m.heads hsub
+  cases hf : m.heads.filter (fun t => sharesLineage m t [br] false) with
+  | nil =>
+    left
+    have hres : resolveRevisionNumber m 12 (L ++ "@" ++ "head") = .ok ([], some L) := by
+      unfold resolveRevisionNumber currentHead
+      simp [hsplit, hLe, hfk, hf, bind, Except.bind, pure, Except.pure]
+    have e : L ++ "@head" = L ++ "@" ++ "head" := by simp [String.append_assoc]
+    rw [e, hres] at hr
+    simp only [bind, Except.bind, List.mapM_nil, pure, Except.pure] at hr
+    refine ⟨by simpa using hr.symm, ?_⟩
+    intro y hy
+    have := List.filter_eq_nil_iff.mp hf y hy
+    simpa using this
+  | cons x rest =>
+    cases rest with
+    | cons x2 r2 =>
+      exfalso
+      have hres : resolveRevisionNumber m 12 (L ++ "@" ++ "head") = .error .multipleHeads := by
+        unfold resolveRevisionNumber currentHead
+        simp [hsplit, hLe, hfk, hf, bind, Except.bind, pure, Except.pure, throw, throwThe, MonadExceptOf.throw]
+      have e : L ++ "@head" = L ++ "@" ++ "head" := by simp [String.append_assoc]
+      rw [e, hres] at hr
+      simp [bind, Except.bind] at hr
+    | nil =>
+      right
+      have hxm : x ∈ m.heads.filter (fun t => sharesLineage m t [br] false) := by rw [hf]; exact List.mem_cons_self
+      obtain ⟨hxh, hxs⟩ := List.mem_filter.mp hxm
+      have hres : resolveRevisionNumber m 12 (L ++ "@" ++ "head") = .ok ([x], some L) := by
+        unfold resolveRevisionNumber currentHead
+        simp [hsplit, hLe, hfk, hf, bind, Except.bind, pure, Except.pure]
+      have e : L ++ "@head" = L ++ "@" ++ "head" := by simp [String.append_assoc]
+      rw [e, hres] at hr
+      have hneg : negInt? x = none := load_ids_legal hl x (hsub x hxh)
+      have hrb : resolveBranch m 11 L = .ok (some br) := by unfold resolveBranch; simp [hlk]
+      have hrev : revisionForIdent m 12 x (some L) = .ok (some x) := by
+        unfold revisionForIdent
+        simp [hLe, hrb, lookup_id m x (hsub x hxh), hxs, bind, Except.bind, pure, Except.pure]
+      simp only [bind, Except.bind, List.mapM_cons, List.mapM_nil, pure, Except.pure, hneg, hrev] at hr
+      refine ⟨x, by simpa using hr.symm, hxh, hxs, ?_⟩
+      intro y hy hys
+      have : y ∈ m.heads.filter (fun t => sharesLineage m t [br] false) := List.mem_filter.mpr ⟨hy, hys⟩
+      rw [hf] at this
+      simpa using this
+
 end C16
